@@ -102,17 +102,17 @@ theorem hvals_foldl_hopStep (l : List Bytes) (h : Hdr) (k : Bytes) (hl : ∀ k' 
 
 /-- no name BFE protects is a standard hop-by-hop header (both tables regenerated from the source) -/
 theorem protected_not_hop :
-    ∀ k ∈ BfeVerif.Generated.C26.hopProtected, k ∉ BfeVerif.Generated.C26.hopHeaders := by decide
+    ∀ k ∈ BfeVerif.Generated.C29.hopProtected, k ∉ BfeVerif.Generated.C29.hopHeaders := by decide
 
-theorem upstream_keeps (i : In) (k : Bytes) (hk : k ∈ BfeVerif.Generated.C26.hopProtected) :
+theorem upstream_keeps (i : In) (k : Bytes) (hk : k ∈ BfeVerif.Generated.C29.hopProtected) :
     hvals (upstream i) k = hvals (resolve i).2 k := by
-  unfold upstream BfeVerif.C26.hopRemove BfeVerif.C26.hopList
+  unfold upstream BfeVerif.C26.hopRemoveP
   apply hvals_foldl_hopStep
   intro k' hk' e
   subst e
   rcases List.mem_append.mp hk' with h1 | h1
   · exact protected_not_hop k hk h1
-  · unfold BfeVerif.C26.connNames at h1
+  · unfold BfeVerif.C26.connNamesP at h1
     have := (List.mem_filter.mp h1).2
     simp only [Bool.and_eq_true, Bool.not_eq_true'] at this
     rw [List.contains_iff_mem.mpr hk] at this
